@@ -33,7 +33,7 @@ type TypeInfo struct {
 	RT      reflect.Type // struct type
 	Key     string       // "<protoname>:<GoName>"
 	byJSON  map[string]int
-	oneofFI []int                // struct field index of k-th oneof interface field
+	oneofFI []int                  // struct field index of k-th oneof interface field
 	wrap    map[int32]reflect.Type // oneof member field number -> wrapper struct type
 	unrecFI int
 	Shapes  []*Shape // one per schema field; nil for opaque customs
